@@ -163,9 +163,10 @@ class _DatasetFillerContext:
         ))
 
         # Open a new shard if the current one already contains too many
-        # examples.
+        # examples. An empty shard (its only write was rejected) is relabeled
+        # instead of closed: it has no file and must not be listed.
         if (current_progress.written_examples >= self._examples_per_shard or
-                metadata_changed):
+            (metadata_changed and current_progress.written_examples > 0)):
             # Close the current shard if needed.
             self.close_shard(shard=current_progress.shard, split=split)
             current_progress.shard = self._get_new_shard(split=split)
